@@ -217,6 +217,64 @@ def collision_case(ctx, do_model=True):
             check_minimal(ctx, f, run, table, case, total_fn=fn)
 
 
+CLI_TESTS = {
+    # keep is required; open is tolerated only together with close (removing open makes close removable)
+    "open-close": "lambda d: b'keep\\n' in d and ((b'open\\n' in d) <= (b'close\\n' in d))",
+    # an even number of x lines and at least one y
+    "parity": "lambda d: d.count(b'x') % 2 == 0 and b'y' in d",
+    # a needs b unless c is gone
+    "chain": "lambda d: b'a\\n' in d and (b'b\\n' in d or b'c\\n' not in d)",
+}
+CLI_FILES = {"open-close": b"open\nkeep\nclose\n", "parity": b"x\ny\nx\nx\nz\nx\n", "chain": b"c\nb\na\nd\n"}
+
+
+def cli_runs(ctx):
+    """the same claim through the command line: `Lithium.main(argv)` with the repeat modes the property allows and any --max
+    (the option handling must not turn repeat off behind the user's back)"""
+    import contextlib
+    import io
+    import os
+    from lithium.reducer import Lithium
+
+    d = loaders.scratch() / "c03-cli"
+    d.mkdir(exist_ok=True)
+    cwd = os.getcwd()
+    os.chdir(d)
+    try:
+        for tname, src in CLI_TESTS.items():
+            (d / f"c03_{tname.replace('-', '_')}.py").write_text(
+                "FN = " + src + "\ndef interesting(args, prefix):\n    return bool(FN(open(args[0], 'rb').read()))\n")
+            fn = eval(src)  # pylint: disable=eval-used
+            for rep in ("last", "always"):
+                for mx in (None, 1, 2, 4):
+                    tc = d / "tc.txt"
+                    tc.write_bytes(CLI_FILES[tname])
+                    argv = [f"--repeat={rep}"] + ([f"--max={mx}"] if mx else []) + [f"c03_{tname.replace('-', '_')}.py", str(tc)]
+                    case = dict(cli=True, argv=argv[:-1], test=tname, data=common.enc_bytes(CLI_FILES[tname]))
+                    try:
+                        with contextlib.redirect_stdout(io.StringIO()), contextlib.redirect_stderr(io.StringIO()):
+                            rc = Lithium().main(argv)
+                    except (Exception, SystemExit) as exc:  # pylint: disable=broad-except
+                        ctx.fail("cli-raises", f"main({argv[:-1]}) raised {type(exc).__name__}: {exc}", case)
+                        continue
+                    ctx.evaluations += 1
+                    ctx.bump("cli-runs")
+                    final = tc.read_bytes()
+                    lines = final.splitlines(keepends=True)
+                    if rc != 0 or not fn(final):
+                        ctx.fail("cli-result", f"main({argv[:-1]}) returned {rc} and left {final!r}", case)
+                        continue
+                    for i in range(len(lines)):
+                        less = b"".join(lines[:i] + lines[i + 1:])
+                        if fn(less):
+                            ctx.fail("not-1-minimal", f"main({argv[:-1]}) ended with {final!r}: deleting line {i} gives {less!r}, which the test accepts", case)
+                            break
+                    if len(lines) >= 1 and final != CLI_FILES[tname]:
+                        ctx.nontriv("cli", tname, rep, mx)
+    finally:
+        os.chdir(cwd)
+
+
 def search(ctx):
     collision_case(ctx, do_model=False)
     trees(ctx, 4, 3000, do_model=False)
@@ -231,6 +289,7 @@ def run(ctx) -> int:
     if trees(ctx, nmax, 400000 if ctx.thorough else 60000):
         ctx.exhaustive.append(f"every deterministic test (verdict tree) for n <= {nmax} atoms x 3 input shapes x {len(CFGS)} option settings")
     family_runs(ctx, 12 if ctx.thorough else 6)
+    cli_runs(ctx)
     return common.decide(ctx, proof, RULE, search=search,
                          assumptions=["the follow-up clause is proved only when re-splitting the result reproduces the remaining atoms (C03_followup_partial); "
                                       "otherwise it is a recorded finding"])
